@@ -31,6 +31,15 @@
 //! source characters for a `^^` result, `[trimmed length, line length]` for the appended end-line
 //! character (no source character exists for it).
 //!
+//! The column a trace may report is one of at most a handful of candidates (`Span::cols`): the
+//! column of the first or of the last source character the token's first character was made from
+//! (they coincide for an ordinary character); the appended end-line character counts as standing
+//! at the trimmed length or at the line length (the first removed blank or the line terminator).
+//!
+//! `Reading` selects between readings of points that neither TeX nor the property text decide
+//! (is the CR of a CR LF pair part of the line terminator; is the `EndOfLine` marker of the
+//! `\read` mode delivered before or after the next line has been read).
+//!
 //! Named deviations reproduce known divergences of the implementation exactly (see c03.rs).
 
 pub const ESCAPE: u8 = 0;
@@ -69,6 +78,21 @@ pub struct Deviations {
     pub nonascii_caret_swallowed: bool,
 }
 
+/// Readings of points the property leaves open. The default is what the implementation did when
+/// the check was written; every alternative is a behaviour TeX's text equally allows.
+#[derive(Clone, Copy, Debug, Default, PartialEq, Eq)]
+pub struct Reading {
+    /// A CR immediately before the LF that ends a line belongs to the line terminator (what the
+    /// module documentation of lexer.rs says, and what web2c's `input_line` does) instead of being
+    /// the last character of the line. §31 leaves the representation of line ends to the system.
+    pub crlf_is_line_end: bool,
+    /// With `report_end_of_line`: the `EndOfLine` marker is delivered *before* the next line is
+    /// read (the line is read, with the end-line character current then, by the following call) —
+    /// the order of TeX's `\read` (§483–§486), where every `\read` inputs its own line. The
+    /// default is the order of the public API: read the next line, then report.
+    pub eol_before_load: bool,
+}
+
 #[derive(Clone, Debug, PartialEq, Eq)]
 pub struct SourceLine {
     /// Full text of the line, trailing blanks included, newline excluded.
@@ -81,28 +105,43 @@ pub struct SourceLine {
     pub start_char: usize,
     /// Whether the line was terminated by `\n` in the source.
     pub has_newline: bool,
+    /// `Reading::crlf_is_line_end` only: `text` ends with a CR that is part of the line terminator
+    /// (`chars` and `trimmed_chars` do not count it).
+    pub cr_stripped: bool,
+    /// Some earlier line of the source contains a non-ASCII character.
+    pub after_nonascii_line: bool,
 }
 
 /// §31/§362 line splitting.
 pub fn split_lines(source: &str) -> Vec<SourceLine> {
+    split_lines_reading(source, Reading::default())
+}
+
+pub fn split_lines_reading(source: &str, reading: Reading) -> Vec<SourceLine> {
     let mut out = vec![];
     let mut start_char = 0usize;
     let mut rest = source;
+    let mut seen_nonascii = false;
     while !rest.is_empty() {
         let (text, has_newline, next) = match rest.find('\n') {
             Some(i) => (&rest[..i], true, &rest[i + 1..]),
             None => (rest, false, ""),
         };
-        let chars = text.chars().count();
-        let trimmed = text.trim_end_matches(' ');
+        let cr_stripped = reading.crlf_is_line_end && has_newline && text.ends_with('\r');
+        let body = if cr_stripped { &text[..text.len() - 1] } else { text };
+        let chars = body.chars().count();
+        let trimmed = body.trim_end_matches(' ');
         out.push(SourceLine {
             text: text.to_string(),
             chars,
             trimmed_chars: trimmed.chars().count(),
             start_char,
             has_newline,
+            cr_stripped,
+            after_nonascii_line: seen_nonascii,
         });
-        start_char += chars + 1;
+        seen_nonascii |= !text.is_ascii();
+        start_char += text.chars().count() + 1;
         rest = next;
     }
     out
@@ -121,6 +160,20 @@ pub struct Span {
     pub reduced: bool,
     /// The appended end-line character is (part of) the origin.
     pub end_line: bool,
+    /// The columns a trace may report (duplicates allowed): first or last source character.
+    pub cols: [usize; 6],
+}
+
+impl Span {
+    pub fn allows(&self, col: usize) -> bool {
+        self.cols.contains(&col)
+    }
+    pub fn cols_sorted(&self) -> Vec<usize> {
+        let mut v = self.cols.to_vec();
+        v.sort_unstable();
+        v.dedup();
+        v
+    }
 }
 
 #[derive(Clone, Debug, PartialEq, Eq)]
@@ -150,6 +203,9 @@ struct BufChar {
     hi: usize,
     reduced: bool,
     end_line: bool,
+    /// Candidate columns of the first / of the last source character this character stands for.
+    start: [usize; 3],
+    end: [usize; 3],
 }
 
 /// What happened during a scan (for class histograms).
@@ -174,6 +230,32 @@ pub struct Stats {
     pub multi_letter_cs: u32,
     pub cs_takes_end_line_char: u32,
     pub lines_loaded: u32,
+    /// `^^xy` whose result is >= 0x80 (a two-byte character in UTF-8), outside / inside a name.
+    pub hex_result_ge_128: u32,
+    pub hex_result_ge_128_in_name: u32,
+    /// The appended end-line character served as the second hex digit of `^^xy`.
+    pub hex_second_digit_is_end_line_char: u32,
+    /// Reduction after the first character of a name (the look-ahead path) whose superscript
+    /// character is not ASCII (2, 3 or 4 bytes in UTF-8).
+    pub in_name_reduction_multibyte_sup: u32,
+    /// Reduction anywhere whose superscript character is not ASCII.
+    pub reduction_multibyte_sup: u32,
+    /// Longest chain of reductions that produced one character.
+    pub max_reduction_chain: u32,
+    /// A comment / a category-5 character discarded a rest of line containing non-ASCII
+    /// characters; the same with another line following.
+    pub discarded_tail_nonascii: u32,
+    pub discarded_tail_nonascii_then_more_lines: u32,
+    /// A rest of line of >= 1 characters (not counting the end-line character) was discarded.
+    pub discarded_tail_nonempty: u32,
+    /// Items delivered from a line that follows a line with non-ASCII characters.
+    pub items_after_nonascii_line: u32,
+    /// Items delivered from a line that follows a line with trailing blanks.
+    pub items_after_trimmed_line: u32,
+    /// `EndOfLine` markers delivered.
+    pub eol_markers: u32,
+    /// Longest control sequence name (characters).
+    pub longest_name: u32,
 }
 
 pub struct Scanner {
@@ -185,6 +267,11 @@ pub struct Scanner {
     loc: usize,
     pub state: State,
     dev: Deviations,
+    reading: Reading,
+    /// `Reading::eol_before_load`: the marker for the exhausted line has been delivered.
+    eol_reported: bool,
+    /// Length of the reduction chain that produced `buf[i]` (parallel to `buf`, in-name path).
+    chain: Vec<u32>,
     pub stats: Stats,
 }
 
@@ -213,19 +300,28 @@ fn merge(ch: char, parts: &[BufChar]) -> BufChar {
         hi: parts.iter().map(|p| p.hi).max().unwrap(),
         reduced: true,
         end_line: parts.iter().any(|p| p.end_line),
+        start: parts[0].start,
+        end: parts[parts.len() - 1].end,
     }
 }
 
 impl Scanner {
     pub fn new(source: &str, dev: Deviations) -> Scanner {
+        Scanner::with_reading(source, dev, Reading::default())
+    }
+
+    pub fn with_reading(source: &str, dev: Deviations, reading: Reading) -> Scanner {
         Scanner {
-            lines: split_lines(source),
+            lines: split_lines_reading(source, reading),
             next_line: 0,
             cur_line: 0,
             buf: vec![],
             loc: 0,
             state: State::NewLine,
             dev,
+            reading,
+            eol_reported: false,
+            chain: vec![],
             stats: Stats::default(),
         }
     }
@@ -251,17 +347,60 @@ impl Scanner {
         self.next_line += 1;
         self.cur_line = self.next_line;
         for (i, ch) in l.text.chars().take(l.trimmed_chars).enumerate() {
-            self.buf.push(BufChar { ch, lo: i, hi: i, reduced: false, end_line: false });
+            self.buf.push(BufChar { ch, lo: i, hi: i, reduced: false, end_line: false, start: [i; 3], end: [i; 3] });
         }
         if let Some(e) = cfg.end_line_char() {
-            self.buf.push(BufChar { ch: e, lo: l.trimmed_chars, hi: l.chars, reduced: false, end_line: true });
+            // No source character exists for it: it stands where the first removed blank / the
+            // line terminator stands (trimmed length), or at the line terminator (line length; one
+            // further when a CR counts as part of the terminator).
+            let c = [l.trimmed_chars, l.chars, if l.cr_stripped { l.chars + 1 } else { l.chars }];
+            self.buf.push(BufChar { ch: e, lo: l.trimmed_chars, hi: c[2], reduced: false, end_line: true, start: c, end: c });
         }
+        self.chain.clear();
+        self.chain.resize(self.buf.len(), 0);
         self.stats.lines_loaded += 1;
         true
     }
 
     fn span(&self, b: &BufChar) -> Span {
-        Span { line: self.cur_line, lo: b.lo, hi: b.hi, reduced: b.reduced, end_line: b.end_line }
+        Span {
+            line: self.cur_line,
+            lo: b.lo,
+            hi: b.hi,
+            reduced: b.reduced,
+            end_line: b.end_line,
+            cols: [b.start[0], b.start[1], b.start[2], b.end[0], b.end[1], b.end[2]],
+        }
+    }
+
+    fn count_item(&mut self) {
+        if let Some(l) = self.lines.get(self.cur_line.wrapping_sub(1)) {
+            if l.after_nonascii_line {
+                self.stats.items_after_nonascii_line += 1;
+            }
+        }
+        if self.cur_line >= 2 {
+            let p = &self.lines[self.cur_line - 2];
+            if p.trimmed_chars < p.chars {
+                self.stats.items_after_trimmed_line += 1;
+            }
+        }
+    }
+
+    /// The rest of the current line is dropped (comment, category-5 character).
+    fn discard_rest(&mut self) {
+        let tail = &self.buf[self.loc.min(self.buf.len())..];
+        let real: Vec<&BufChar> = tail.iter().filter(|b| !(b.end_line && !b.reduced)).collect();
+        if !real.is_empty() {
+            self.stats.discarded_tail_nonempty += 1;
+        }
+        if real.iter().any(|b| !b.ch.is_ascii()) {
+            self.stats.discarded_tail_nonascii += 1;
+            if self.next_line < self.lines.len() {
+                self.stats.discarded_tail_nonascii_then_more_lines += 1;
+            }
+        }
+        self.loc = self.buf.len();
     }
 
     /// `get_next` restricted to file input. With `report_end_of_line` the move from one line to
@@ -273,10 +412,18 @@ impl Scanner {
             if self.loc >= self.buf.len() {
                 self.state = State::NewLine;
                 let first = self.cur_line == 0;
+                if self.reading.eol_before_load && report_end_of_line && !first && !self.eol_reported && self.next_line < self.lines.len() {
+                    // Alternative order: marker now, the line is read by the next call.
+                    self.eol_reported = true;
+                    self.stats.eol_markers += 1;
+                    return Item::EndOfLine;
+                }
+                let reported = std::mem::replace(&mut self.eol_reported, false);
                 if !self.load_next_line(cfg) {
                     return Item::EndOfInput;
                 }
-                if report_end_of_line && !first {
+                if report_end_of_line && !first && !reported {
+                    self.stats.eol_markers += 1;
                     return Item::EndOfLine;
                 }
                 continue 'switch;
@@ -293,19 +440,23 @@ impl Scanner {
                             self.stats.reduced_to_escape += 1;
                         }
                         let span = self.span(&cur);
+                        self.count_item();
                         let name = self.scan_control_sequence(cfg);
+                        self.stats.longest_name = self.stats.longest_name.max(name.chars().count() as u32);
                         return Item::Cs { name, span };
                     }
                     END_OF_LINE => {
                         // §348: finish line
-                        self.loc = self.buf.len();
+                        self.discard_rest();
                         match self.state {
                             State::NewLine => {
                                 self.stats.par_tokens += 1;
+                                self.count_item();
                                 return Item::Cs { name: "par".to_string(), span: self.span(&cur) };
                             }
                             State::MidLine => {
                                 self.stats.space_from_eol += 1;
+                                self.count_item();
                                 return Item::Char { ch: ' ', cat: SPACE, span: self.span(&cur) };
                             }
                             State::SkipBlanks => {
@@ -317,13 +468,14 @@ impl Scanner {
                     SPACE => match self.state {
                         State::MidLine => {
                             self.state = State::SkipBlanks;
+                            self.count_item();
                             return Item::Char { ch: ' ', cat: SPACE, span: self.span(&cur) };
                         }
                         _ => continue 'switch,
                     },
                     COMMENT => {
                         self.stats.comments += 1;
-                        self.loc = self.buf.len();
+                        self.discard_rest();
                         continue 'switch;
                     }
                     IGNORED => {
@@ -332,6 +484,7 @@ impl Scanner {
                     }
                     INVALID => {
                         self.stats.invalid += 1;
+                        self.count_item();
                         return Item::Invalid { ch: cur.ch, span: self.span(&cur) };
                     }
                     SUPERSCRIPT => {
@@ -346,6 +499,10 @@ impl Scanner {
                                         self.stats.nested_reductions += 1;
                                     }
                                     depth += 1;
+                                    self.stats.max_reduction_chain = self.stats.max_reduction_chain.max(depth);
+                                    if !cur.ch.is_ascii() {
+                                        self.stats.reduction_multibyte_sup += 1;
+                                    }
                                     let hex = !self.dev.no_hex_caret
                                         && is_hex(c.ch)
                                         && loc + 2 < self.buf.len()
@@ -354,6 +511,12 @@ impl Scanner {
                                         self.stats.hex_reductions += 1;
                                         let cc = self.buf[loc + 2];
                                         let v = 16 * hex_val(c.ch) + hex_val(cc.ch);
+                                        if v >= 128 {
+                                            self.stats.hex_result_ge_128 += 1;
+                                        }
+                                        if cc.end_line && !cc.reduced {
+                                            self.stats.hex_second_digit_is_end_line_char += 1;
+                                        }
                                         self.loc = loc + 3;
                                         merge(char::from_u32(v).unwrap(), &[cur, self.buf[loc], c, cc])
                                     } else {
@@ -377,10 +540,12 @@ impl Scanner {
                             }
                         }
                         self.state = State::MidLine;
+                        self.count_item();
                         return Item::Char { ch: cur.ch, cat, span: self.span(&cur) };
                     }
                     _ => {
                         self.state = State::MidLine;
+                        self.count_item();
                         return Item::Char { ch: cur.ch, cat, span: self.span(&cur) };
                     }
                 }
@@ -402,6 +567,7 @@ impl Scanner {
             self.stats.nonascii_third += 1;
             if self.dev.nonascii_caret_swallowed {
                 self.buf.drain(k - 1..k + 1);
+                self.chain.drain(k - 1..k + 1);
                 return true;
             }
             return false;
@@ -414,11 +580,25 @@ impl Scanner {
             self.stats.hex_reductions += 1;
             let cc = self.buf[k + 2];
             let v = 16 * hex_val(c.ch) + hex_val(cc.ch);
+            if v >= 128 {
+                self.stats.hex_result_ge_128_in_name += 1;
+            }
+            if cc.end_line && !cc.reduced {
+                self.stats.hex_second_digit_is_end_line_char += 1;
+            }
             merge(char::from_u32(v).unwrap(), &self.buf[k - 1..k + 3])
         } else {
             merge(shift64(c.ch), &self.buf[k - 1..k + 2])
         };
         self.stats.reductions += 1;
+        if !cur.is_ascii() {
+            self.stats.reduction_multibyte_sup += 1;
+            if !first {
+                self.stats.in_name_reduction_multibyte_sup += 1;
+            }
+        }
+        let chain = self.chain[k - 1] + 1;
+        self.stats.max_reduction_chain = self.stats.max_reduction_chain.max(chain);
         if self.buf[k - 1].reduced {
             self.stats.nested_reductions += 1;
         }
@@ -432,6 +612,8 @@ impl Scanner {
         }
         self.buf[k - 1] = new;
         self.buf.drain(k..k + d);
+        self.chain[k - 1] = chain;
+        self.chain.drain(k..k + d);
         true
     }
 
